@@ -244,15 +244,29 @@ func checkGrammar(r *ev.Run, g *gram, family string, n int, extra [][]string, ex
 		for _, x := range s {
 			key += ebnfref.Sym(x)
 		}
-		_, want := lang[key]
-		if len(s) > n {
-			// beyond the language bound: the independent table decides
+		_, derives := lang[key]
+		want := derives
+		if len(s) > n || ref.Resolved > 0 {
+			// beyond the language bound the independent table decides; so it does when a directive resolved a cell,
+			// because resolving a conflict may remove sentences (e.g. "if" above "else" makes the else branch unreachable)
 			_, want, _ = ref.Parse(s)
+		}
+		if ok && len(s) <= n && !derives {
+			bad = true
+			r.Report(class, fmt.Sprintf("sentence [%s]: emerge's table accepts it but the grammar does not derive it\n%s", strings.Join(s, " "), text), in)
+			return
 		}
 		if ok != want {
 			bad = true
-			r.Report(class, fmt.Sprintf("sentence [%s]: emerge's table accepts=%v, the grammar derives it: %v\n%s", strings.Join(s, " "), ok, want, text), in)
+			r.Report(class, fmt.Sprintf("sentence [%s]: emerge's table accepts=%v, expected %v (grammar derives it: %v; cells resolved by directives: %d)\n%s", strings.Join(s, " "), ok, want, derives, ref.Resolved, text), in)
 			return
+		}
+		if expected != nil && !ok {
+			if _, ok3 := expected(s); ok3 {
+				bad = true
+				r.Report(class, fmt.Sprintf("sentence [%s]: precedence climbing over the declared levels parses it but emerge's table rejects it\n%s", strings.Join(s, " "), text), in)
+				return
+			}
 		}
 		if !ok {
 			return
@@ -606,7 +620,7 @@ func main() {
 		r.Finish()
 	}
 	if r.Fork(16) {
-		r.Set("rule", "textbook families; every grammar with up to the production bound over start, x, \"a\", \"b\" with bodies up to the length bound; operator grammars over 2-3 binary and one prefix operator under every ordered partition into levels x every @left/@right assignment (and @none / missing-level variants); each accepted grammar is driven on every terminal string up to the length bound (and every operator expression up to the operator bound); non-trivial = grammar for which a table is built; distinct by text")
+		r.Set("rule", "textbook families; every grammar with up to the production bound over start, x, \"a\", \"b\" with bodies up to the length bound; operator grammars over 2-3 binary and one prefix operator under every ordered partition into levels x every @left/@right assignment x every @left/@right/@none assignment (and missing-level variants); prefix / postfix / dangling-else shapes, whose only conflicts are between different handles, under every partition x assignment; each accepted grammar is driven on every terminal string up to the length bound (and every operator expression up to the operator bound); non-trivial = grammar for which a table is built; distinct by text")
 		r.Set("evaluations", r.Get("grammars"))
 		r.Finish()
 	}
@@ -688,35 +702,32 @@ func main() {
 		}
 		partitions(all, func(parts [][]string) {
 			nl := len(parts)
-			for mask := 0; mask < 1<<nl; mask++ {
+			// every assignment of @left / @right / @none to the levels
+			assocs := []string{"left", "right", "none"}
+			total := 1
+			for i := 0; i < nl; i++ {
+				total *= 3
+			}
+			for code := 0; code < total; code++ {
 				var levels []opLevel
-				for i, p := range parts {
-					a := "left"
-					if mask&(1<<i) != 0 {
-						a = "right"
-					}
-					levels = append(levels, opLevel{a, p})
+				anyNone := false
+				for i, c := 0, code; i < nl; i, c = i+1, c/3 {
+					a := assocs[c%3]
+					anyNone = anyNone || a == "none"
+					levels = append(levels, opLevel{a, parts[i]})
 				}
 				if !mine() {
 					continue
 				}
 				g := operatorGrammar(os.binary, os.prefix, levels)
+				if anyNone {
+					checkGrammar(r, g, "operators_none", 4, exprs, nil)
+					continue
+				}
 				lv := levels
 				checkGrammar(r, g, "operators", 4, exprs, func(in []string) ([]string, bool) {
 					return pratt(lv, bin, os.prefix, in)
 				})
-			}
-			// one level declared @none, and one operator left without a level: unresolved conflicts expected
-			if mine() {
-				var levels []opLevel
-				for i, p := range parts {
-					a := "left"
-					if i == 0 {
-						a = "none"
-					}
-					levels = append(levels, opLevel{a, p})
-				}
-				checkGrammar(r, operatorGrammar(os.binary, os.prefix, levels), "operators_none", 4, exprs, nil)
 			}
 			if mine() && len(parts) > 1 {
 				var levels []opLevel
@@ -726,6 +737,61 @@ func main() {
 				checkGrammar(r, operatorGrammar(os.binary, os.prefix, levels), "operators_missing_level", 4, exprs, nil)
 			}
 		})
+	}
+	// (iv) grammars whose operators do not conflict with themselves (prefix, postfix, dangling else), so that the only
+	// conflicts are BETWEEN different handles: every ordered partition of the handles into levels x every assignment of
+	// @left / @right / @none; two handles sharing one @none level must leave their conflict unresolved.
+	e := N("e")
+	shapes := []struct {
+		name  string
+		prods []lrref.Prod
+		ops   []string
+	}{
+		{"prefix_postfix", []lrref.Prod{P("start", e), P("e", T("-"), e), P("e", e, T("!")), P("e", T("i"))}, []string{"-", "!"}},
+		{"prefix_postfix_binary", []lrref.Prod{P("start", e), P("e", T("-"), e), P("e", e, T("!")), P("e", e, T("+"), e), P("e", T("i"))}, []string{"-", "!", "+"}},
+		{"two_prefix_postfix", []lrref.Prod{P("start", e), P("e", T("-"), e), P("e", T("~"), e), P("e", e, T("!")), P("e", T("i"))}, []string{"-", "~", "!"}},
+		{"dangling_else", []lrref.Prod{P("start", e), P("e", T("if"), e), P("e", T("if"), e, T("else"), e), P("e", T("i"))}, []string{"if", "else"}},
+		{"dangling_else_postfix", []lrref.Prod{P("start", e), P("e", T("if"), e), P("e", T("if"), e, T("else"), e), P("e", e, T("!")), P("e", T("i"))}, []string{"if", "else", "!"}},
+	}
+	for _, sh := range shapes {
+		subsets := [][]string{sh.ops}
+		// also leave one handle without a level
+		for i := range sh.ops {
+			var sub []string
+			for j, o := range sh.ops {
+				if j != i {
+					sub = append(sub, o)
+				}
+			}
+			subsets = append(subsets, sub)
+		}
+		for _, ops := range subsets {
+			partitions(ops, func(parts [][]string) {
+				nl := len(parts)
+				assocs := []string{"left", "right", "none"}
+				total := 1
+				for i := 0; i < nl; i++ {
+					total *= 3
+				}
+				for code := 0; code < total; code++ {
+					if !mine() {
+						continue
+					}
+					g := &gram{prods: sh.prods}
+					for i, c := 0, code; i < nl; i, c = i+1, c/3 {
+						lv := lrref.Level{Assoc: assocs[c%3], Terms: map[string]bool{}}
+						line := "@" + assocs[c%3]
+						for _, o := range parts[i] {
+							lv.Terms[o] = true
+							line += ` "` + o + `"`
+						}
+						g.levels = append(g.levels, lv)
+						g.lines = append(g.lines, line)
+					}
+					checkGrammar(r, g, "shapes_"+sh.name, n, nil, nil)
+				}
+			})
+		}
 	}
 	r.Assume("conflict detection and table contents are decided by an independent canonical-LR(1)-merged-by-core construction with the documented resolution rule (ref/lrref); operator grammars are additionally compared with a precedence-climbing parser")
 	r.Assume("the table builder itself is dependency code (moorara/algo); emerge's contribution is the plumbing from directives to levels and the error surfacing")
